@@ -51,6 +51,8 @@ inductive Op
   | pop (c : Nat)              -- Pop; `c` resolves "first key of the map iteration"
   | keys | values | size | isEmpty | asMap
   | clear | shrink
+  | forEachN (n : Nat)         -- ForEach / ForEachKey with a callback that stops after n visits
+  | forEachDel (keysOnly : Bool) -- ForEach / ForEachKey whose first callback deletes every key
 deriving Repr, DecidableEq
 
 inductive Out
@@ -81,7 +83,19 @@ def store (s : St) (k v : Nat) : St :=
 /-- The key `Pop` meets first: an arbitrary position of the iteration. -/
 def pick (m : AL Nat) (c : Nat) : Option (Nat × Nat) := m[c % m.length]?
 
+/-- `Delete` called once per key of `ks` (from inside a callback: the lock is free there). -/
+def deleteAll (sh : Nat → Nat → Bool) (s : St) (ks : List Nat) : St :=
+  ks.foldl (fun s k => (delete sh s k).1) s
+
+/-- Visits of an iteration whose callback answers `visits < n`: the callback always runs once on a
+non-empty snapshot, never more often than there are entries. -/
+def visits (n size : Nat) : Nat := min (max n 1) size
+
 def step (sh : Nat → Nat → Bool) (s : St) : Op → St × Out
+  | .forEachN n => (s, .nat (visits n s.m.length))
+  -- `ForEach`/`ForEachKey` copy the entries under the read lock and call back without it: the
+  -- callback may delete everything and the iteration still visits the whole snapshot
+  | .forEachDel ko => (deleteAll sh s (AL.keys s.m), if ko then .list (AL.keys s.m) else .pairs s.m)
   | .set k v => (store s k v, .bool (!AL.has s.m k))
   | .get k => (s, .val (AL.get s.m k))
   | .goc k v =>
@@ -120,6 +134,8 @@ def run (sh : Nat → Nat → Bool) (s : St) : List Op → St × List Out
 /-! ## abstract model: a plain map -/
 
 def specStep (m : AL Nat) : Op → AL Nat × Out
+  | .forEachN n => (m, .nat (visits n m.length))
+  | .forEachDel ko => ((AL.keys m).foldl AL.del m, if ko then .list (AL.keys m) else .pairs m)
   | .set k v => (AL.set m k v, .bool (!AL.has m k))
   | .get k => (m, .val (AL.get m k))
   | .goc k v =>
@@ -197,7 +213,14 @@ def parseOp (m : AL Nat) : List String → Option Op
   | ["foreach"] => some .asMap
   | ["clear"] => some .clear
   | ["shrink"] => some .shrink
+  | ["foreachn", n] => do pure (.forEachN (← n.toNat?))
+  | ["foreachkeyn", n] => do pure (.forEachN (← n.toNat?))
+  | ["foreachdel"] => some (.forEachDel false)
+  | ["foreachkeydel"] => some (.forEachDel true)
   | _ => none
+
+/-- White-box state printed after every answer: `deletedKeys` and `len(m)`. -/
+def showState (d : DSt) : String := s!"d{d.s.deleted} n{d.s.m.length}"
 
 def stepLine (d : DSt) (toks : List String) : DSt × String :=
   match toks with
